@@ -11,6 +11,8 @@
 //   bad <c> <kind>                        after the requests: 0 non-absolute request / 1 malformed bytes
 //   cut <c> <offset> <gap us>
 //   stop <after client k>
+//   net <extra body bytes per response> <client leg: 0 as the rest / 1 40 kB/s + 120 ms / 2 200 kB/s + 20 ms>
+//                                         (responses larger than the congestion window over a client leg slower than the origin leg)
 // Origins are harness-written recording servers: they keep every byte they
 // receive and answer the k-th request on a connection with a scripted (partly
 // binary) response sent in timed pieces.
@@ -54,9 +56,11 @@ struct Run
 	void fail(std::string m) { if (err.empty()) err = std::move(m); }
 };
 
+long long g_big = 0; // extra body bytes per response (set per case)
+
 std::string response_for(int origin, int port, int k)
 {
-	std::size_t const n = std::size_t(200 + 137 * k + 1000 * (k % 2) + 64 * origin);
+	std::size_t const n = std::size_t(200 + 137 * k + 1000 * (k % 2) + 64 * origin) + std::size_t(g_big);
 	std::string body; body.resize(n);
 	for (std::size_t i = 0; i < n; ++i) body[i] = char(payload_byte(std::uint64_t(31 + origin * 7 + port), std::uint64_t(k) * 100000 + i));
 	return fmt("HTTP/1.1 200 OK\r\ncontent-length: %zu\r\nx-origin: %d-%d-%d\r\n\r\n", n, origin, port, k) + body;
@@ -174,6 +178,7 @@ Verdict run_case(Case const& c, Ctx& ctx)
 	topo.net[{-1, -1}] = {QSpec{3000000, 3000, 0}};
 	std::unique_ptr<Run> rp(new Run()); Run& R = *rp;
 	CliSpec specs[MAXCLI];
+	long long big = 0; int slow = 0;
 	for (auto const& r : c.recs)
 	{
 		if (r.name == "cli" && r.a.size() >= 3 && r.a[0] >= 0 && r.a[0] < MAXCLI) { CliSpec& s = specs[r.a[0]]; s.present = true; s.okind = int(((r.a[1] % 6) + 6) % 6); s.mode = int(r.a[2] & 1); }
@@ -182,7 +187,11 @@ Verdict run_case(Case const& c, Ctx& ctx)
 		else if (r.name == "bad" && r.a.size() >= 2 && r.a[0] >= 0 && r.a[0] < MAXCLI) specs[r.a[0]].bad = int(r.a[1] & 1);
 		else if (r.name == "cut" && r.a.size() >= 3 && r.a[0] >= 0 && r.a[0] < MAXCLI && specs[r.a[0]].cuts.size() < 10) specs[r.a[0]].cuts.push_back({std::max(0LL, r.a[1]), std::max(0LL, std::min(1000000LL, r.a[2]))});
 		else if (r.name == "stop" && !r.a.empty()) R.stop_after = int(r.a[0]);
+		else if (r.name == "net" && r.a.size() >= 2) { big = std::max(0LL, std::min(100000LL, r.a[0])); slow = int(((r.a[1] % 3) + 3) % 3); }
 	}
+	g_big = big;
+	if (slow == 1) for (int i = 0; i < 2; ++i) topo.nodes[std::size_t(i)].qin = {QSpec{40000, 120000, 0}};
+	if (slow == 2) for (int i = 0; i < 2; ++i) topo.nodes[std::size_t(i)].qin = {QSpec{200000, 20000, 0}};
 	bool inconclusive = false;
 	struct Exp { std::vector<std::string> forwarded; std::string relay; bool expect503 = false, expect_eof_only = false; int origin = -1; int port = 80; bool served = true; bool named = false; bool early_pipelined_named = false; };
 	std::vector<Exp> exps;
@@ -370,6 +379,8 @@ Verdict run_case(Case const& c, Ctx& ctx)
 	if (named) ctx.label("named_host");
 	if (successor_after_error) ctx.label("successor_after_error");
 	if (R.stopped) ctx.label("stop");
+	if (big >= 4000 && slow) ctx.label("large_response_slow_client_leg");
+	if (big >= 4000) ctx.label("large_response");
 	for (auto& cl : R.clients) { static char const* on[] = {"origin_ipv4_literal", "origin_name", "origin_ipv6_literal", "origin_unresolvable", "origin_refusing", "origin_second_name"}; ctx.label(on[cl->spec.okind]); if (cl->spec.bad >= 0) ctx.label("bad_request"); }
 	v.nontrivial = pipelined_cut || named || successor_after_error;
 	if (!R.err.empty()) { Verdict f = Verdict::fail("http_proxy", R.err); f.nontrivial = v.nontrivial; return f; }
@@ -396,12 +407,13 @@ rc::Gen<Case> gen_case()
 				return v;
 			});
 	};
-	return rc::gen::map(rc::gen::tuple(client(0), client(1), client(2), kit::range(1, 3), kit::weighted({{5, -1}, {1, 0}, {1, 1}})),
-		[](std::tuple<std::vector<Rec>, std::vector<Rec>, std::vector<Rec>, long long, long long> t) {
+	return rc::gen::map(rc::gen::tuple(client(0), client(1), client(2), kit::range(1, 3), kit::weighted({{5, -1}, {1, 0}, {1, 1}}), kit::weighted({{5, 0}, {1, 4000}, {1, 30000}, {1, 70000}}), kit::weighted({{2, 0}, {1, 1}, {1, 2}})),
+		[](std::tuple<std::vector<Rec>, std::vector<Rec>, std::vector<Rec>, long long, long long, long long, long long> t) {
 			Case c;
 			std::vector<Rec> const* cl[3] = {&std::get<0>(t), &std::get<1>(t), &std::get<2>(t)};
 			for (long long i = 0; i < std::get<3>(t); ++i) for (auto const& r : *cl[i]) c.recs.push_back(r);
 			if (std::get<4>(t) >= 0) c.recs.push_back(mk("stop", {std::get<4>(t)}));
+			if (std::get<5>(t) > 0 || std::get<6>(t) > 0) c.recs.push_back(mk("net", {std::get<5>(t), std::get<6>(t)}));
 			return c;
 		});
 }
